@@ -786,8 +786,20 @@ pub fn gen_c15(seed: u64, corpus: &[String]) -> DetRun {
         10..=11 => Src::Text(gen_nameprog(&mut r)),
         0..=3 => Src::Text(gen_idprog(&mut r)),
         4..=5 => {
-            let sc = crate::hotswap::gen_c06(r.next_u64());
-            Src::Text(sc.versions[0].source())
+            // (programs with standard-library voices need the library search path; the shipped
+            // examples cover the library here, so such a draw is repeated)
+            let mut text = String::new();
+            for _ in 0..8 {
+                let sc = crate::hotswap::gen_c06(r.next_u64());
+                text = sc.versions[0].source();
+                if !text.contains("use osc::") {
+                    break;
+                }
+            }
+            if text.contains("use osc::") {
+                text = gen_idprog(&mut r);
+            }
+            Src::Text(text)
         }
         _ => Src::File(r.pick(corpus).clone()),
     };
